@@ -14,6 +14,8 @@ Definition rw_of (l : list (addr * mode)) : list addr :=
   map fst (filter (fun p => is_rw (snd p)) l).
 Definition wo_of (l : list (addr * mode)) : list addr :=
   map fst (filter (fun p => mode_eqb (snd p) WO) l).
+Definition is_mode (l : list (addr * mode)) (a : addr) (m : mode) : bool :=
+  existsb (fun p => Nat.eqb (fst p) a && mode_eqb (snd p) m) l.
 Definition applied_of (o : obs) (a : addr) : list nat :=
   match nth_error (o_reps o) a with Some r => o_applied r | None => [] end.
 Definition rep_of (o : obs) (a : addr) : option repobs := nth_error (o_reps o) a.
@@ -141,6 +143,13 @@ Definition c05_step (rf0 : nat) (prev : obs) (e : event) (cur : obs) : bool :=
   && (if is_io e
       then forallb (fun a => if mem a att then true else same_reps prev cur a) (seq 0 (length (o_reps prev)))
       else true)
+  (* a replica marked failed is not revived by a mode request: it comes back only through remove + add *)
+  && (match e with
+      | SetMode a _ =>
+          if is_mode (o_replicas prev) a ERR then is_mode (o_replicas cur) a ERR || negb (mem a (addrs_of (o_replicas cur)))
+          else true
+      | _ => true
+      end)
   (* a detector that reports a replica detaches it: a monitor notification that was delivered (whatever value
      the monitor channel carried), an explicit remove *)
   && (match e with
@@ -237,6 +246,8 @@ Definition c16_step (rf0 : nat) (prev : obs) (e : event) (cur : obs) : bool :=
         (* every replica in service (RW or rebuilding) that did not fail the call has the new size *)
         forallb (fun a => if flt fs a KResize then true else Z.eqb (rsize_of cur a) sz) (in_service (o_replicas prev))
         && (if is_ack cur then Z.eqb (o_size cur) sz else Z.eqb (o_size cur) (o_size prev))
+        (* a grow that the frontend refuses is reported failed (the exported size is the old one) *)
+        && (if flt fs 0%nat KFeResize then negb (is_ack cur) else true)
         (* the failure is booked against the replica that failed: it leaves the service, the others stay *)
         && forallb (fun a => Bool.eqb (mem a (in_service (o_replicas cur))) (negb (flt fs a KResize)))
                    (in_service (o_replicas prev))
@@ -365,8 +376,6 @@ Definition nopair (prev : obs) (a b : event) (cur : obs) : bool := true.
 (** ** C07 (control half): a rebuilding replica is promoted only by a verify request that succeeds, and then
     its chain agrees with the first RW replica's from the checkpoint upward (the whole chain when it has none)
     and it carries that replica's revision counter *)
-Definition is_mode (l : list (addr * mode)) (a : addr) (m : mode) : bool :=
-  existsb (fun p => Nat.eqb (fst p) a && mode_eqb (snd p) m) l.
 
 Definition c07_step (rf0 : nat) (prev : obs) (e : event) (cur : obs) : bool :=
   match e with
